@@ -12,7 +12,11 @@
    TLC checks the former against the latter.
 
    What C18 does NOT fix is left open when Mode = "open" (stage A, trace validation):
-     * when suppression is entered            (en \in BOOLEAN, in the trace read from `state`)
+     * when suppression is entered            (en \in BOOLEAN, in the trace read from `state`),
+       except that a vector which is *explicitly outdated* - it carries an entry (sequence number
+       0 included: a peer that has just restarted) below the local one - must start a suppression
+       period when heard in Steady: "announces exactly when needed" (OutdatedStartsSuppression;
+       a SeqNo element with value 0 is an ordinary entry, unlike an entry without SeqNo)
      * how long any timer runs                (timer' \in 0..MaxT)
      * whether a steady-state expiry emits    (choice "skip")
      * how many sync Interests a burst of n same-instant publications produces (1..n, the last
@@ -102,6 +106,8 @@ Good(e) == HasId(e) /\ HasSeq(e)
 Decodable(p) == p.k = "sv" /\ Len(p.es) > 0
 Damaged(p) == \E i \in 1..Len(p.es) : ~Good(p.es[i])
 Overclaims(p, s) == \E i \in 1..Len(p.es) : Good(p.es[i]) /\ p.es[i].id = Self /\ p.es[i].seq > s
+\* sequence numbers of the well-formed entries of p that are below the local entry of their node
+OlderEntries(p, l) == { p.es[i].seq : i \in { j \in 1..Len(p.es) : Good(p.es[j]) /\ l[p.es[j].id] > p.es[j].seq } }
 Vec(p) == [n \in Nodes |->
              LET S == { p.es[i].seq : i \in { j \in 1..Len(p.es) : Good(p.es[j]) /\ p.es[j].id = n } }
              IN  IF S = {} THEN 0 ELSE CHOOSE x \in S : \A y \in S : x >= y]
@@ -118,6 +124,8 @@ Merge(l, es) == IF es = <<>> THEN l
                 ELSE LET e == Head(es)
                      IN  Merge(IF l[e.id] < e.seq THEN [l EXCEPT ![e.id] = e.seq] ELSE l, Tail(es))
 \* need_notif: a key local_sv does not have, or an entry where local is ahead
+\* the least every implementation must react to: an explicit entry below the local one
+Outdated(l, es) == \E i \in 1..Len(es) : l[es[i].id] > es[i].seq
 NeedNotif(l, es) == \E i \in 1..Len(es) :
                       \/ (es[i].id # Self /\ l[es[i].id] = 0)
                       \/ l[es[i].id] > es[i].seq
@@ -146,9 +154,10 @@ More == MaxEv = 0 \/ nev < MaxEv
 
 \* last.sup: the step started in Suppress
 LastRecv(p, acc) == [a |-> "RecvSV", n |-> 0, acc |-> acc, dec |-> Decodable(p), dmg |-> Damaged(p),
-                     oc |-> Overclaims(p, selfSeq), v |-> Vec(p), sup |-> (state = "Suppress")]
+                     oc |-> Overclaims(p, selfSeq), v |-> Vec(p), sup |-> (state = "Suppress"),
+                     old |-> OlderEntries(p, local) # {}, old0 |-> 0 \in OlderEntries(p, local)]
 LastOther(a, n) == [a |-> a, n |-> n, acc |-> FALSE, dec |-> FALSE, dmg |-> FALSE, oc |-> FALSE, v |-> Zero,
-                    sup |-> (state = "Suppress")]
+                    sup |-> (state = "Suppress"), old |-> FALSE, old0 |-> FALSE]
 
 Ignore(p) ==
   /\ UNCHANGED <<local, selfSeq, state, heard, agg>>
@@ -164,7 +173,8 @@ Process(p, j) ==
       /\ out' = <<>>
       /\ UNCHANGED selfSeq
       /\ IF state = "Steady"
-         THEN \E en \in (IF Mode = "impl" THEN {NeedNotif(local, es)} ELSE AnyEnter) :
+         THEN \E en \in (IF Mode = "impl" THEN {NeedNotif(local, es)}
+                         ELSE IF Outdated(local, es) THEN {TRUE} ELSE AnyEnter) :
                 IF en THEN /\ state' = "Suppress"
                            /\ heard' = DictOf(es) /\ agg' = DictOf(es)
                            /\ timer' \in SupTimers(j)
@@ -261,7 +271,7 @@ InitWith(s0, t0) ==
   /\ timer = t0
   /\ out = <<>> /\ missed = 0
   /\ last = [a |-> "Init", n |-> 0, acc |-> FALSE, dec |-> FALSE, dmg |-> FALSE, oc |-> FALSE, v |-> Zero,
-             sup |-> FALSE]
+             sup |-> FALSE, old |-> FALSE, old0 |-> FALSE]
   /\ nev = 0
   /\ hint = NoHint
 
@@ -335,6 +345,11 @@ SuppressionDecision ==
         /\ (out' # <<>>) <=> Newer(local, heard)
         /\ state' = "Steady" ]_vars
 
+\* "announces exactly when needed": an accepted vector that explicitly carries an entry below the
+\* local one (value 0 included) and is heard in Steady starts a suppression period
+OutdatedStartsSuppression ==
+  [][ (IsRecv /\ last'.acc /\ last'.old /\ state = "Steady") => state' = "Suppress" ]_vars
+
 \* whatever is emitted at an expiry is one Interest carrying the full local vector; nothing is
 \* emitted by RecvSV or Tick
 EmitsOnlyLocal ==
@@ -348,7 +363,8 @@ EmitsOnlyLocal ==
    name is never printed.                                                                    *)
 WitnessNames == <<"SupEmit", "SupNoEmit", "OverclaimWouldRaise", "Incomparable", "OlderNoCallback",
                   "DamagedAccepted", "DamagedRejected", "UndecodableInSup", "Burst", "PublishInSup",
-                  "SteadyEmit", "HeardInSup", "EnterSup", "ActRecvSV", "ActPublish", "ActTimerFire", "ActTick">>
+                  "SteadyEmit", "HeardInSup", "EnterSup", "ActRecvSV", "ActPublish", "ActTimerFire", "ActTick",
+                  "OutdatedZero">>
 WBase == 9000
 ASSUME \A i \in 1..Len(WitnessNames) : TLCSet(WBase + i, 0)
 Seen(i, cond) == (cond /\ TLCGet(WBase + i) = 0) => (PrintT(<<"WITNESS", WitnessNames[i]>>) /\ TLCSet(WBase + i, 1))
@@ -369,5 +385,6 @@ Witnesses ==
       /\ Seen(14, IsRecv)
       /\ Seen(15, last'.a = "Publish")
       /\ Seen(16, last'.a = "TimerFire")
-      /\ Seen(17, last'.a = "Tick") ]_vars
+      /\ Seen(17, last'.a = "Tick")
+      /\ Seen(18, IsRecv /\ last'.acc /\ last'.old0 /\ state = "Steady" /\ state' = "Suppress") ]_vars
 =============================================================================
